@@ -5,6 +5,7 @@ package core
 import (
 	"math/big"
 	"sort"
+	"time"
 
 	"gitlab.com/aquachain/aquachain/common"
 	"gitlab.com/aquachain/aquachain/core/types"
@@ -93,3 +94,7 @@ func (pool *TxPool) VerifHeadBacklog() int { return len(pool.chainHeadCh) }
 
 // VerifConfig returns the sanitised configuration in effect.
 func (pool *TxPool) VerifConfig() TxPoolConfig { return pool.config }
+
+// VerifSetEvictionInterval sets the period of the pool loop's idle-eviction tick for pools created afterwards
+// (the concurrent tier uses a short period so that the real eviction path runs against concurrent submissions).
+func VerifSetEvictionInterval(d time.Duration) { evictionInterval = d }
